@@ -10,10 +10,10 @@ import (
 
 	"github.com/brewlin/net-protocol/pkg/sleep"
 	"github.com/brewlin/net-protocol/pkg/waiter"
-	"github.com/brewlin/net-protocol/protocol/transport/udp"
 	tcpip "github.com/brewlin/net-protocol/protocol"
 	"github.com/brewlin/net-protocol/protocol/header"
 	"github.com/brewlin/net-protocol/protocol/network/arp"
+	"github.com/brewlin/net-protocol/protocol/transport/udp"
 	"github.com/brewlin/net-protocol/stack"
 	"vharness/hx"
 	"vharness/netsim"
